@@ -65,8 +65,10 @@ def sublengths_b(rnd, total, kind):
     return ','.join(parts)
 
 
-def gen_doc(rnd, mem, start, end, wrap_ok=False, annotate=False, allow_i=True):
-    """-> list of ctl lines tiling [start, end) (+ the terminating i directive)."""
+def gen_doc(rnd, mem, start, end, wrap_ok=False, annotate=False, allow_i=True, ignored=None, loops=False, rst=False):
+    """-> list of ctl lines tiling [start, end) (+ the terminating i directive).
+    ignored: a list that receives [from, to) of every mid-range i block; loops: L directives are generated;
+    rst: boundaries respect the argument byte of RST 8 (for runs with sna2skool -r)."""
     lines = []
     a = start
     n_tok = [0]
@@ -78,12 +80,24 @@ def gen_doc(rnd, mem, start, end, wrap_ok=False, annotate=False, allow_i=True):
     while a < end:
         btype = rnd.choice('bbccccgsttuw')
         maxlen = min(end - a, rnd.choice((1, 2, 3, 5, 8, 13, 24, 40)))
+        if ignored is not None and a > start and rnd.random() < 0.07:
+            # an ignored block in the middle of the range: no statements, its bytes are outside the claim
+            lines.append('i %d' % a)
+            ignored.append([a, a + maxlen])
+            a += maxlen
+            # the ignored bytes produce no statements, so the assembler has to be told where the next entry lives
+            # (sna2skool adds @org itself only when it makes up the control file)
+            if a < end:
+                lines.append('@ %d org' % a)
+            continue
         if btype == 'c':
             # walk instructions
             p = a
             bounds = [a]
             while p < a + maxlen or p == a:
                 ln = z80len.length(mem, p)
+                if rst and mem[p & 0xFFFF] == 0xCF:
+                    ln = 2              # sna2skool -r (default RSTHandlerConfig 8:B): RST 8 owns the byte that follows it
                 if p + ln > end:
                     break
                 p += ln
@@ -145,6 +159,11 @@ def gen_doc(rnd, mem, start, end, wrap_ok=False, annotate=False, allow_i=True):
                 p += sl
             if annotate and blen > 3 and rnd.random() < 0.3:
                 lines.append('M %d,%d %s' % (a, blen, tok()))
+            elif loops and rnd.random() < 0.3 and a + 2 * blen <= end:
+                # L: the sub-block directives of [a, a+blen) (and with the flag the block directive too) repeat
+                count = rnd.randrange(2, min(4, (end - a) // blen) + 1)
+                lines.append('L %d,%d,%d%s' % (a, blen, count, rnd.choice(('', '', ',0', ',1'))))
+                a += blen * (count - 1)
         a += blen
     lines.append('i %d' % end)
     return lines
